@@ -304,6 +304,15 @@ class Run:
             buf = io.BytesIO()
             self.prs.save(buf)
             self.start_media = media_members(Pkg.read(buf.getvalue()))
+        elif start.endswith("|arrays"):
+            # the deck with its media (and chart / notes / embedding) parts numbered from 2: image1 is free, image2 taken
+            from checks.c02 import renamed
+            with open(os.path.join(REPO, start[:-7]), "rb") as fh:
+                data = fh.read()
+            data = renamed(data, "arrays") or data
+            self.start_media = media_members(Pkg.read(data))
+            with sut("C15:open-start"):
+                self.prs = Presentation(io.BytesIO(data))
         else:
             path = os.path.join(REPO, start)
             self.start_media = media_members(Pkg.read(path))
@@ -913,7 +922,8 @@ def strategies():
         st.tuples(st.just("reopen")),
     )
     case = st.fixed_dictionaries({
-        "start": st.sampled_from(["default"] * 6 + STARTS[1:]),
+        "start": st.sampled_from(["default"] * 6 + STARTS[1:] + [STARTS[1] + "|arrays", STARTS[3] + "|arrays",
+                                                                 STARTS[5] + "|arrays"]),
         "pool": st.lists(img, min_size=1, max_size=5),
         "ops": st.lists(op, min_size=1, max_size=20),
     })
